@@ -7,6 +7,36 @@ ROOT = os.path.dirname(os.path.dirname(os.path.abspath(__file__)))
 ALL = ["C%02d" % i for i in range(1, 21)]
 
 CHECKS = {
+    "C02": dict(
+        technique="Lean 4 invariant proof over all schedules of commit/Snapshot/Persist/failed Persist/Restore/restart on a bookkeeping model with the free interpretation of the replicated state; differential runs of the real FSM on real LevelDB stores and a real raft file snapshot store; replay-digest oracle",
+        text="Machine-checked proof, for every log (index gaps included) and every schedule, that the node's state equals a plain replay of the committed log, that every persisted snapshot plus its retained entries reproduces the full prefix, that the log copy and output store hold exactly the un-folded commands, and that a snapshot folds only inputs older than now - (SessionExpiration + 10 s). The bookkeeping model is compared step by step with the real FSM (irclog indices, output ids, lastSnapshotState keys, snapshot bounds), and the real IRC state is compared with a plain replay after every step. The proof attempt pinned down three genuine bookkeeping defects, repaired (see known_findings.json).",
+        design_ref="DESIGN.md §4 C02",
+        note="Trusts: Lean kernel; hashicorp/raft (in-order apply, restore-then-replay on restart); LevelDB / file snapshot store durability; the free interpretation is connected to the real IRC state by the replay-digest comparison (and by C01/C03).",
+    ),
+    "C10": dict(
+        technique="Lean 4 theorems about the POST handler's decision model and the marker update (client entries and messages of death), regenerated facts pinning the dedupe test and its position in handlePostMessage; retry scenarios on the real api.HTTP handlers over an in-process raft node (snapshot, restart, SIGKILL)",
+        text="Proved on the decision model: a POST whose client message id equals the session's marker is acknowledged without proposing an entry, any number of times; the FSM sets the marker before processing, and also for entries skipped as message of death; a closed session refuses the retry. The dedupe condition, its bare return and its position before the leader check/proxy/apply are re-extracted from postmessage.go on every run. Whether handlers leave the marker alone is covered by the IRC-layer correspondence and by the retry runs on the real handlers (partial: not yet a theorem over all handlers).",
+        design_ref="DESIGN.md §4 C10",
+        note="Trusts: Lean kernel; tools/extract; raft commit semantics; retries arrive after the first copy was applied (property's quantifier).",
+    ),
+    "C11": dict(
+        technique="Lean 4 theorems about the session-authentication model (sound: accepted => non-empty secret equal to exactly that session's; pseudo-clients unreachable; refusal => no proposal), route/guard tables regenerated from DispatchPublic/DispatchPrivate; exhaustive request matrix on the real handlers compared with the model's decisions",
+        text="Proved: api.session accepts only a non-empty header equal to the stored secret of exactly the named client session; missing/empty/other-session secrets are refused and a refused POST/DELETE proposes nothing; every public route except session creation is dominated by the session check and the private route table is reachable only after the basic-auth test (regenerated from the source on every run). The full matrix routes x credentials x session states is executed against the real handlers: refused requests answer non-200, append no entry and leave the state dump unchanged.",
+        design_ref="DESIGN.md §4 C11",
+        note="Trusts: Lean kernel; tools/extract; net/http routing and BasicAuth; secrets are unguessable.",
+    ),
+    "C16": dict(
+        technique="Lean 4 theorems about the config handler's decision model and the FSM's Config case; regenerated facts for the revision test and the proposed entry; sequences of valid/invalid/stale/future posts on the real handlers with snapshot+restore and SIGKILL",
+        text="Proved: accepted iff the body parses and names the current revision; a rejected update proposes nothing; an accepted update, applied on any node, installs exactly that configuration with revision+1 and touches nothing else; unparsable entries are skipped; GLINE writes the ban into the replicated configuration. Sequences are executed on the real handlers (exhaustive up to length 4 in the thorough tier). Known finding: WhitelistedOrigins is not in the snapshot format.",
+        design_ref="DESIGN.md §4 C16",
+        note="Trusts: Lean kernel; tools/extract; BurntSushi/toml as the parser; posts are issued one after another.",
+    ),
+    "C17": dict(
+        technique="Lean 4 theorems about the session lookup and expiry models, regenerated comparison/skip conditions; lookups on every prefix of generated histories (= every lag) against the real IRCServer and the model; real-clock expiry runs",
+        text="Proved: 'no such session' is answered only for an id that is not stored and lies strictly below the last processed id (which, ids being assigned in log order, can never be created later); ids at or beyond it are 'not yet seen'; stored sessions are always found; the sweep proposes exactly the client sessions idle longer than the configured expiration and never a services pseudo-client. The end-of-session clauses (nick free, left all channels) follow from the IRC-layer invariant proofs (C14).",
+        design_ref="DESIGN.md §4 C17",
+        note="Trusts: Lean kernel; tools/extract; entry ids increase with the log (raft indexes).",
+    ),
     "C07": dict(
         technique="Lean 4 theorems about a generic crash/restart model (a life marks exactly the panicking entry and dies; restarts converge to the replay of the marked log) plus the IRC instance of the marker effect, wiring facts regenerated from statemachine.go; child-process runs of the real FSM with the test-only PANIC command, SIGKILL-free real process exits, restart and replay",
         text="Machine-checked proof, for any state machine and any log, that a process life which hits a panicking entry rewrites exactly that entry as message of death (same message, nothing else changes, all earlier entries applied normally) and terminates, that a surviving life leaves the log untouched, and that after at most one restart per unmarked entry the node is up with exactly the state of replaying the marked log — marked entries having only the marker effect, which in the IRC instance is proved to touch only the named session's duplicate-detection marker and activity times and to produce no output. The recover handler's order mark -> store -> exit and the skip of already-marked entries are re-extracted from the source on every run; real crash/restart runs in child processes check marking, exit status, state and marker on the real code.",
